@@ -26,6 +26,7 @@ static _Atomic unsigned char is_raw_wfd[4096];
 static int actions_left[MAXLOOP];
 static _Atomic long total_posts, total_entries, sig_posts, thread_posts, owner_posts, child_posts, burst_posts, blocking_checked, eagain_writes;
 static pthread_t main_thread;
+static _Atomic long failed_registers, handler_bursts;
 static _Atomic int sig_target = -1;
 static pid_t child_pid;
 static _Atomic int child_alive;
@@ -41,6 +42,7 @@ static void raw_cb(void *cookie);
 static int slot_register(struct loopthr *lt)
 {
 	int i, ret, fl;
+	uint64_t f0;
 	for (i = 0; i < MAXRAW; i++) {
 		int exp = 0;
 		if (atomic_compare_exchange_strong(&rw[i].state, &exp, 2))
@@ -58,9 +60,13 @@ static int slot_register(struct loopthr *lt)
 	rw[i].entries = 0;
 	rw[i].last_post_seq = 0;
 	rw[i].last_entry_seq = 0;
+	f0 = vt_fault_fired();
 	ret = iv_event_raw_register(rw[i].e);
 	if (ret) {
-		mon_viol("C07", "raw-register-failed", g_method, "iv_event_raw_register failed (%d) without a fault that explains it", ret);
+		if (vt_fault_fired() == f0)
+			mon_viol("C07", "raw-register-failed", g_method, "iv_event_raw_register failed (%d) without a fault that explains it", ret);
+		else
+			atomic_fetch_add(&failed_registers, 1);
 		free(rw[i].e);
 		rw[i].e = NULL;
 		atomic_store(&rw[i].state, 0);
@@ -109,6 +115,8 @@ static int slot_post(int i, int n, _Atomic long *ctr)
 		atomic_fetch_sub(&rw[i].inflight, 1);
 		return 0;
 	}
+	if (n > 16)
+		vt_no_perturb++;
 	for (k = 0; k < n; k++) {
 		atomic_fetch_add(&rw[i].posts, 1);
 		s = seq_next();
@@ -117,6 +125,8 @@ static int slot_post(int i, int n, _Atomic long *ctr)
 			;
 		iv_event_raw_post(rw[i].e);
 	}
+	if (n > 16)
+		vt_no_perturb--;
 	atomic_fetch_add(&total_posts, n);
 	atomic_fetch_add(ctr, n);
 	atomic_fetch_sub(&rw[i].inflight, 1);
@@ -162,7 +172,13 @@ static void raw_cb(void *cookie)
 		return;
 	actions_left[lt->idx]--;
 	k = rng_n(&lt->rng, 100);
-	if (k < 20) {			/* post while the handler runs: own object or any other */
+	if (k < 6) {			/* a burst from the handler itself (the owner cannot drain meanwhile): exactly 1024 or 2048 posts, or more than a pipe holds */
+		static const int sizes[] = { 1024, 2048, 1024, 66000 };
+		int nb = sizes[rng_n(&lt->rng, g_burst ? 4 : 3)];
+		slot_post(rng_pct(&lt->rng, 70) ? i : (int)rng_n(&lt->rng, MAXRAW), nb, &owner_posts);
+		atomic_fetch_add(&handler_bursts, 1);
+		actions_left[lt->idx] = 0;	/* nothing else from this loop: the burst stays the last word */
+	} else if (k < 20) {		/* post while the handler runs: own object or any other */
 		slot_post(rng_pct(&lt->rng, 50) ? i : (int)rng_n(&lt->rng, MAXRAW), 1 + rng_n(&lt->rng, 3), &owner_posts);
 	} else if (k < 28 && i != atomic_load(&sig_target)) {
 		slot_unregister(lt, i);
@@ -375,12 +391,12 @@ int main(int argc, char **argv)
 		run_case(i, seed);
 	mon_printf("STAT method=%s cases=%llu posts=%llu handler_entries=%llu posts_from_threads=%llu posts_from_signal_handler=%llu posts_from_owner=%llu "
 		   "posts_from_forked_child=%llu burst_posts=%llu bursts=%llu children=%llu obligations=%llu discharged=%llu nonblocking_writes_checked=%llu "
-		   "eagain_writes=%llu shim_quiescences=%llu sig_deliveries=%llu injected=%llu violations=%d\n",
+		   "eagain_writes=%llu failed_registers_under_fault=%llu bursts_from_handler=%llu shim_quiescences=%llu sig_deliveries=%llu injected=%llu violations=%d\n",
 		   g_method, (unsigned long long)S.cases, (unsigned long long)S.posts, (unsigned long long)S.entries,
 		   (unsigned long long)S.thread_posts, (unsigned long long)S.sig_posts, (unsigned long long)S.owner_posts,
 		   (unsigned long long)S.child_posts, (unsigned long long)S.burst_posts, (unsigned long long)S.bursts,
 		   (unsigned long long)S.children, (unsigned long long)S.obligations, (unsigned long long)S.discharged,
-		   (unsigned long long)blocking_checked, (unsigned long long)eagain_writes,
+		   (unsigned long long)blocking_checked, (unsigned long long)eagain_writes, (unsigned long long)failed_registers, (unsigned long long)handler_bursts,
 		   (unsigned long long)vt_stats.quiescences, (unsigned long long)vt_stats.sig_deliveries,
 		   (unsigned long long)vt_stats.injected, mon_viol_total);
 	mon_printf("DONE\n");
